@@ -69,3 +69,18 @@ Example c14_example :
   = Ok [(SPair, [(KPair 0 1, 10)]); (STabulation, [(KOpt 5, 14)])] /\
   apply_ops (forget f) (cli_ops [] [Remove STabulation (KOpt 5); Remove STabulation (KOpt 5)] []) = CfgErr.
 Proof. repeat split; vm_compute; reflexivity. Qed.
+
+(* --- down to characters (proof/StoreText.v): the file edited by hand, printed (every key in the spelling its entry carries,
+       ":" or "=", continuation lines, an empty line after each section), is read by the line parser (model/Ini.v) as exactly
+       the store the operations produce -- keys as their blank-free texts *)
+From Coq Require Import ZArith.
+From V Require Import model.Ini proof.IniProofs proof.IniFile proof.IniFile2 proof.StoreText.
+Theorem c14_edited_file_text : forall (ltext : nat -> list Z), (forall n, label_ok (ltext n)) ->
+  forall (f f' : rawfile val) sp ops st, hand_edit f sp ops = Some f' -> values_ok f' -> compat ltext f' = true -> Store.parse f' = Ok st ->
+  apply_ops (forget f) ops = Ok (forget f') /\ parse_ini (printed ltext f') = Some (text_store ltext f').
+Proof.
+  intros ltext L f f' sp ops st He Hv Hc Hp. split.
+  - pose proof (hand_edit_commutes val ops f sp) as H. rewrite He in H. exact H.
+  - exact (store_text_printed ltext L f' st Hv Hc Hp).
+Qed.
+Print Assumptions c14_edited_file_text.
